@@ -109,6 +109,10 @@ func (s csSource) want(v int) any {
 		return fmt.Sprintf("v%d", v)
 	case "struct":
 		return struct{}{}
+	case "any":
+		if v%5 == 2 {
+			return nil // a nil interface value is a value like any other
+		}
 	}
 	return v
 }
@@ -127,7 +131,9 @@ func (s csSource) zero() any {
 
 func (s csSource) val(v int) reflect.Value {
 	rv := reflect.New(s.ch.Type().Elem()).Elem()
-	rv.Set(reflect.ValueOf(s.want(v)))
+	if w := s.want(v); w != nil {
+		rv.Set(reflect.ValueOf(w))
+	}
 	return rv
 }
 
